@@ -18,6 +18,7 @@ import (
 	"github.com/hashicorp/nodeenrollment/protocol"
 	nodetls "github.com/hashicorp/nodeenrollment/tls"
 	"google.golang.org/protobuf/proto"
+	"google.golang.org/protobuf/types/known/structpb"
 
 	"verifharness/hs"
 	"verifharness/world"
@@ -90,6 +91,7 @@ func Run(bh Behaviour, seed int64) ([]Line, error) {
 	if err != nil {
 		return nil, err
 	}
+	subs := map[string]net.Listener{}
 	deliveries := make(chan delivery, 64)
 	closedCh := make(chan string, 16)
 	var wg sync.WaitGroup
@@ -114,6 +116,7 @@ func Run(bh Behaviour, seed int64) ([]Line, error) {
 			if err != nil {
 				return nil, err
 			}
+			subs[name] = ln
 			wg.Add(1)
 			go func(name string, ln net.Listener) {
 				defer wg.Done()
@@ -168,6 +171,11 @@ func Run(bh Behaviour, seed int64) ([]Line, error) {
 				var opts []nodeenrollment.Option
 				if len(extras) > 0 {
 					opts = append(opts, nodeenrollment.WithExtraAlpnProtos(extras))
+				}
+				if fmt.Sprint(op["st"]) == "big" {
+					// a large client state: the authentication request needs a few dozen ALPN chunks
+					st, _ := structpb.NewStruct(map[string]any{"blob": strings.Repeat("s", 4096)})
+					opts = append(opts, nodeenrollment.WithState(st))
 				}
 				conn, cerr = protocol.Dial(ctx, srv.Nodes["k1"].Storage, srv.Addr, opts...)
 			case "base":
@@ -244,6 +252,17 @@ func Run(bh Behaviour, seed int64) ([]Line, error) {
 				conn.Close()
 			}
 			ln.Res = ln.Obs.From
+		case "Lookup":
+			// another component fetches an already registered sub-listener by name, without options
+			got, err := sl.GetListener(fmt.Sprint(op["name"]))
+			switch {
+			case err != nil:
+				ln.Res, ln.Err = "error", err.Error()
+			case got == subs[fmt.Sprint(op["name"])]:
+				ln.Res = "same"
+			default:
+				ln.Res = "other"
+			}
 		case "CloseBase":
 			srv.Close()
 			got := map[string]bool{}
